@@ -171,9 +171,9 @@ def p_pool(kind, which, tier):
         years, times, reps, offs = [2001], P_TIMES, ["cal"], [[0, 0], [5, 45]]
         days = lambda y: (1, 59, c.year_len(y))  # noqa: E731
     else:
-        years = [2001, 2004] if (tier == "quick" and kind == "greg") else ([2001] if tier == "quick" else [2001, 2004, 2099])
+        years = [2001, 2004] if (tier != "quick" or kind == "greg") else [2001]
         times = P_TIMES[:2] + P_TIMES[4:5] + P_TIMES[7:] if tier == "quick" else P_TIMES[:3] + P_TIMES[4:5] + P_TIMES[7:]
-        reps, offs = pools.REPS, [[-12, 0]] if tier == "quick" else [[-12, 0], [5, 45]]
+        reps, offs = pools.REPS, [[-12, 0]]
         days = lambda y: pools.days_small(c, y)  # noqa: E731
     out = []
     for y in years:
